@@ -4,6 +4,7 @@ import Torf.Model.Untrusted
 import Torf.Model.QueryString
 import Torf.Model.PyStrip
 import Torf.Model.PyInt
+import Torf.Model.UrlAttrs
 open Lean Torf Torf.Bencode Torf.Untrusted
 namespace Driver.C08
 
@@ -166,11 +167,15 @@ def magnetOp (j : Json) : Except String Json := do
       let v : Option Int ← if a[1].isNull then pure none else some <$> parseInt (← a[1].getStr?)
       pure (!isAsciiStr k.toList || pyIntAscii 4300 k.toList == v)
     else throw "ints entry"
+  -- lazily validated attribute: would a read of `.port` after the scheme test raise? (the unchanged code does not read it)
+  let portRaises := (j.getObjValAs? Bool "portRaises").toOption.getD false
+  let oS : MagnetOracle := { o with urlparse := fun _ => o.urlparse uri }
+  let portRead := fromStringA oS pct (fun a => a == .port && portRaises) [.hostname, .port] uri
   let strippedM := String.ofList (pyStrip uri.toList)
   let stripAgree := match j.getObjValAs? String "stripped" with
     | .ok s => s == strippedM
     | .error _ => true
-  return jobj [("intAgree", jbool intAgree), ("stripAgree", jbool stripAgree), ("stripSteps", jnat (stripSteps uri.toList)),
+  return jobj [("portReadKind", jstr (kindOf portRead)), ("intAgree", jbool intAgree), ("stripAgree", jbool stripAgree), ("stripSteps", jnat (stripSteps uri.toList)),
                ("model", jobj [("kind", jstr (kindOf r)),
                                ("infohash", match r with | .ok m => jstr m.infohash | .error _ => Json.null),
                                ("xl", match r with
